@@ -113,11 +113,18 @@ Definition typed_receipts (k : list N) (o : outcome) : list receipt :=
   | _ => []
   end.
 
-Definition raw_receipts (c : call) (o : outcome) : list receipt :=
+(* [l]: the generators that exist when the call is made (a step hands out the
+   entry its generator was created for) *)
+Definition raw_receipts (c : call) (l : list iter) (o : outcome) : list receipt :=
   match c with
   | Receive => match o with OMsg m => if is_frame m then [RFull m] else [] | _ => [] end
   | ReceiveText | IterText _ => typed_receipts k_text o
   | ReceiveBytes | IterBytes _ => typed_receipts k_bytes o
+  | IterStep i =>
+      match nth_error l i with
+      | Some it => typed_receipts (key_of (ikind it)) o
+      | None => []
+      end
   | _ => []
   end.
 
@@ -127,7 +134,36 @@ Definition drop_connect (c : wstate) (l : list receipt) : list receipt :=
   match c with Connecting => tl l | _ => l end.
 
 Definition receipts (o : obs) : list receipt :=
-  drop_connect (cs (o_before o)) (raw_receipts (o_call o) (o_out o)).
+  drop_connect (cs (o_before o)) (raw_receipts (o_call o) (its (o_before o)) (o_out o)).
+
+(* ---------- classes of calls ---------- *)
+
+(* the helpers that hand out payloads: they need a CONNECTED application *)
+Definition typed_receive (c : call) : bool :=
+  match c with
+  | ReceiveText | ReceiveBytes | IterText _ | IterBytes _ | IterStep _ => true
+  | _ => false
+  end.
+
+(* the only calls that may still ask the server for an event after the
+   application closed: the raw receive() (an application may drain events up to
+   the disconnect) and accept(), which waits for websocket.connect first *)
+Definition reads_raw (c : call) : bool :=
+  match c with
+  | Receive | Accept _ => true
+  | _ => false
+  end.
+
+(* what a typed receive gives when the application is not CONNECTED *)
+Definition refused (o : outcome) : bool :=
+  match o with
+  | OExn AssertionError => true
+  | OIter [] (TExn AssertionError) => true
+  | OIter [] TLimit => true          (* asked for no item at all *)
+  | OStop => true                    (* the generator had already finished *)
+  | ONoIter => true
+  | _ => false
+  end.
 
 (* ---------- outcomes ---------- *)
 
@@ -153,7 +189,15 @@ Definition intended (c : call) : option msg :=
 Definition rank (w : wstate) : nat :=
   match w with Connecting => 0 | Connected => 1 | Disconnected => 2 end.
 Definition wle (a b : wstate) : Prop := rank a <= rank b.
-Definition st_le (s s' : st) : Prop := wle (cs s) (cs s') /\ wle (aps s) (aps s').
+(* generators are never forgotten, keep their kind, and never come back to life *)
+Fixpoint its_le (a b : list iter) : Prop :=
+  match a, b with
+  | [], _ => True
+  | x :: a', y :: b' => ikind x = ikind y /\ (idone x = true -> idone y = true) /\ its_le a' b'
+  | _ :: _, [] => False
+  end.
+Definition st_le (s s' : st) : Prop :=
+  wle (cs s) (cs s') /\ wle (aps s) (aps s') /\ its_le (its s) (its s').
 
 (* ====================================================================== *)
 (* Basic facts                                                              *)
@@ -193,10 +237,28 @@ Lemma wle_refl : forall a, wle a a.
 Proof. intros a. unfold wle. lia. Qed.
 Lemma wle_trans : forall a b c, wle a b -> wle b c -> wle a c.
 Proof. unfold wle. intros. lia. Qed.
+Lemma its_le_refl : forall l, its_le l l.
+Proof. induction l as [|x l IH]; cbn; auto. Qed.
+Lemma its_le_trans : forall a b c, its_le a b -> its_le b c -> its_le a c.
+Proof.
+  induction a as [|x a IH]; intros [|y b] [|z c] H1 H2; cbn in *; auto; try contradiction.
+  destruct H1 as (K1 & D1 & L1), H2 as (K2 & D2 & L2).
+  refine (conj _ (conj _ _)); [congruence | auto | eapply IH; eauto].
+Qed.
+Lemma its_le_app : forall l x, its_le l (l ++ x).
+Proof. induction l as [|y l IH]; intros x; cbn; auto. Qed.
+Lemma its_le_finish : forall i l, its_le l (finish i l).
+Proof.
+  induction i as [|i IH]; intros [|x l]; cbn; auto.
+  refine (conj eq_refl (conj (fun _ => eq_refl) (its_le_refl _))).
+Qed.
 Lemma st_le_refl : forall s, st_le s s.
-Proof. intros s. split; apply wle_refl. Qed.
+Proof. intros s. refine (conj (wle_refl _) (conj (wle_refl _) (its_le_refl _))). Qed.
 Lemma st_le_trans : forall a b c, st_le a b -> st_le b c -> st_le a c.
-Proof. intros a b c [H1 H2] [H3 H4]. split; eapply wle_trans; eauto. Qed.
+Proof.
+  intros a b c (H1 & H2 & H3) (H4 & H5 & H6).
+  refine (conj _ (conj _ _)); [eapply wle_trans | eapply wle_trans | eapply its_le_trans]; eauto.
+Qed.
 
 (* the receive discipline as a run with a flag "disconnect already delivered" *)
 Fixpoint nrad (d : bool) (tr : list ev) : option bool :=
@@ -302,9 +364,10 @@ Lemma typed_facts : forall k s sc r s1 sc1 t1,
   fwd_events t1 = [] /\ aps s1 = aps s /\ wle (cs s) (cs s1) /\ recvd t1 ++ sc1 = sc /\
   (forall v, r = inr v -> cs s1 <> Connecting) /\
   (cs s = Disconnected -> no_recv t1 = true) /\
-  (J s sc -> nrad (isd (cs s)) t1 = Some (isd (cs s1)) /\ J s1 sc1).
+  (J s sc -> nrad (isd (cs s)) t1 = Some (isd (cs s1)) /\ J s1 sc1) /\
+  its s1 = its s.
 Proof.
-  intros k [c a] sc r s1 sc1 t1 H. unfold J, wle, has_type in *. unfold_ops.
+  intros k [c a l0] sc r s1 sc1 t1 H. unfold J, wle, has_type in *. unfold_ops.
   brk.
   all: leaf H.
   all: try solve [intuition (try congruence; try lia)].
@@ -321,7 +384,7 @@ Lemma typed_receipts_ok : forall k s sc r s1 sc1 t1,
   J s sc ->
   Forall2 receipt_ok (drop_connect (cs s) (typed_receipts k (res_outcome r))) (frames (recvd t1)).
 Proof.
-  intros k [c a] sc r s1 sc1 t1 Hk H HJ. unfold J, has_type, frames, is_frame, has_type in *.
+  intros k [c a l0] sc r s1 sc1 t1 Hk H HJ. unfold J, has_type, frames, is_frame, has_type in *.
   destruct Hk; subst k; unfold_ops.
   all: brk.
   all: leaf H.
@@ -333,23 +396,25 @@ Lemma iter_facts : forall k n s sc items t s1 sc1 t1,
   ws_iter k n s sc = ((items, t), s1, sc1, t1) ->
   fwd_events t1 = [] /\ aps s1 = aps s /\ wle (cs s) (cs s1) /\ recvd t1 ++ sc1 = sc /\
   (cs s = Disconnected -> no_recv t1 = true) /\
-  (J s sc -> nrad (isd (cs s)) t1 = Some (isd (cs s1)) /\ J s1 sc1).
+  (J s sc -> nrad (isd (cs s)) t1 = Some (isd (cs s1)) /\ J s1 sc1) /\
+  its s1 = its s.
 Proof.
   intros k n. induction n as [|n IH]; intros s sc items t s1 sc1 t1 H; cbn [ws_iter] in H.
   - inversion H; subst. cbn. repeat split; auto using wle_refl.
   - destruct (ws_receive_typed k s sc) as [[[r sa] sca] ta] eqn:E.
-    apply typed_facts in E. destruct E as (F1 & F2 & F3 & F4 & F5 & F6 & F7).
+    apply typed_facts in E. destruct E as (F1 & F2 & F3 & F4 & F5 & F6 & F7 & F8).
     assert (Stop : forall tm, (items, t, s1, sc1, t1) = ([], tm, sa, sca, ta) ->
       fwd_events t1 = [] /\ aps s1 = aps s /\ wle (cs s) (cs s1) /\ recvd t1 ++ sc1 = sc /\
       (cs s = Disconnected -> no_recv t1 = true) /\
-      (J s sc -> nrad (isd (cs s)) t1 = Some (isd (cs s1)) /\ J s1 sc1)).
+      (J s sc -> nrad (isd (cs s)) t1 = Some (isd (cs s1)) /\ J s1 sc1) /\
+      its s1 = its s).
     { intros tm Q. inversion Q; subst. repeat split; auto; apply F7; auto. }
     destruct r as [e|v].
     + destruct e; inversion H; subst; eapply Stop; reflexivity.
     + destruct (ws_iter k n sa sca) as [[[[items' t'] sb] scb] tb] eqn:E2.
-      inversion H; subst. apply IH in E2. destruct E2 as (G1 & G2 & G3 & G4 & G5 & G6).
+      inversion H; subst. apply IH in E2. destruct E2 as (G1 & G2 & G3 & G4 & G5 & G6 & G7).
       rewrite fwd_events_app, recvd_app, F1, G1, <- app_assoc, G4.
-      refine (conj _ (conj _ (conj _ (conj _ (conj _ _))))); auto; try congruence.
+      refine (conj _ (conj _ (conj _ (conj _ (conj _ (conj _ _)))))); auto; try congruence.
       * eapply wle_trans; eauto.
       * intros D. specialize (F6 D).
         assert (cs sa = Disconnected) as D2.
@@ -372,7 +437,7 @@ Proof.
   - inversion H; subst. cbn. destruct (cs s1); constructor.
   - destruct (ws_receive_typed k s sc) as [[[r sa] sca] ta] eqn:E.
     pose proof (typed_receipts_ok _ _ _ _ _ _ _ Hk E HJ) as R.
-    pose proof (typed_facts _ _ _ _ _ _ _ E) as (F1 & F2 & F3 & F4 & F5 & F6 & F7).
+    pose proof (typed_facts _ _ _ _ _ _ _ E) as (F1 & F2 & F3 & F4 & F5 & F6 & F7 & F8).
     destruct r as [e|v].
     + destruct e; inversion H; subst; cbn in *; exact R.
     + destruct (ws_iter k n sa sca) as [[[[items' t'] sb] scb] tb] eqn:E2.
@@ -392,12 +457,12 @@ Definition step_facts_stmt (c : call) : Prop := forall s sc out s' sc' tr,
              Forall2 receipt_ok (receipts (Obs c s out tr s')) (frames (recvd tr))).
 
 Ltac facts_brute :=
-  intros [c a] sc out s' sc' tr H;
+  intros [c a l0] sc out s' sc' tr H;
   unfold J, st_le, wle, receipts, frames, is_frame, has_type in *; unfold_ops;
   brk; leaf H; brk;
   repeat match goal with |- context [str_eqb ?a ?b] => destruct (str_eqb a b) eqn:? end;
   try excl;
-  try solve [intuition (try congruence; try lia; repeat constructor; cbn; try congruence)].
+  try solve [intuition (try congruence; try lia; try apply its_le_refl; repeat constructor; cbn; try congruence)].
 
 Lemma step_facts_accept : forall v, step_facts_stmt (Accept v).
 Proof. intros v. facts_brute. Qed.
@@ -420,18 +485,84 @@ Proof. intros m. facts_brute. Qed.
 Lemma step_facts_iter : forall k n c,
   payload_key k ->
   (forall s sc, step c s sc = lift_iter (ws_iter k n s sc)) ->
-  (forall o, raw_receipts c o = typed_receipts k o) ->
+  (forall l o, raw_receipts c l o = typed_receipts k o) ->
   step_facts_stmt c.
 Proof.
   intros k n c Hk Hc Hr s sc out s' sc' tr H. rewrite Hc in H. unfold lift_iter in H.
   destruct (ws_iter k n s sc) as [[[[items t] sa] sca] ta] eqn:E.
   inversion H; subst; clear H.
-  pose proof (iter_facts _ _ _ _ _ _ _ _ _ E) as (F1 & F2 & F3 & F4 & F5 & F6).
+  pose proof (iter_facts _ _ _ _ _ _ _ _ _ E) as (F1 & F2 & F3 & F4 & F5 & F6 & F7).
   refine (conj _ (conj F4 (conj F5 _))).
-  - split; [exact F3 | rewrite F2; apply wle_refl].
+  - refine (conj F3 (conj _ _)); [rewrite F2; apply wle_refl | rewrite F7; apply its_le_refl].
   - intros HJ. destruct (F6 HJ) as [N1 J1]. refine (conj N1 (conj J1 _)).
     unfold receipts. cbn [o_before o_call o_out]. rewrite Hr.
     eapply iter_receipts_ok; eauto.
+Qed.
+
+Lemma key_of_payload : forall kd, payload_key (key_of kd).
+Proof. intros [|]; [left|right]; reflexivity. Qed.
+
+Lemma step_facts_open : forall kd, step_facts_stmt (IterOpen kd).
+Proof.
+  intros kd s sc out s' sc' tr H. cbn [step] in H. unfold ws_iter_open in H. inversion H; subst; clear H.
+  cbn. refine (conj _ (conj eq_refl (conj (fun _ => eq_refl) _))).
+  - refine (conj (wle_refl _) (conj (wle_refl _) (its_le_app _ _))).
+  - intros HJ. refine (conj eq_refl (conj HJ _)). unfold receipts. cbn. destruct (cs s); constructor.
+Qed.
+
+Lemma step_facts_iclose : forall i, step_facts_stmt (IterClose i).
+Proof.
+  intros i s sc out s' sc' tr H. cbn [step] in H. unfold ws_iter_close in H.
+  assert (Q : forall o s0, (out, s', sc', tr) = (o, s0, sc, []) -> cs s0 = cs s -> aps s0 = aps s ->
+              its_le (its s) (its s0) ->
+    st_le s s' /\ recvd tr ++ sc' = sc /\ (cs s = Disconnected -> no_recv tr = true) /\
+    (J s sc -> nrad (isd (cs s)) tr = Some (isd (cs s')) /\ J s' sc' /\
+               Forall2 receipt_ok (receipts (Obs (IterClose i) s out tr s')) (frames (recvd tr)))).
+  { intros o s0 Q C A L. inversion Q; subst. cbn.
+    refine (conj _ (conj eq_refl (conj (fun _ => eq_refl) _))).
+    - refine (conj _ (conj _ L)); [rewrite C | rewrite A]; apply wle_refl.
+    - intros HJ. rewrite C. refine (conj eq_refl (conj _ _)).
+      + unfold J in *. rewrite C. exact HJ.
+      + unfold receipts. cbn. destruct (cs s); constructor. }
+  destruct (nth_error (its s) i).
+  - eapply Q; [symmetry; exact H | reflexivity | reflexivity | apply its_le_finish].
+  - eapply Q; [symmetry; exact H | reflexivity | reflexivity | apply its_le_refl].
+Qed.
+
+Lemma step_facts_istep : forall i, step_facts_stmt (IterStep i).
+Proof.
+  intros i s sc out s' sc' tr H. cbn [step] in H. unfold ws_iter_step in H.
+  assert (Quiet : forall o, (out, s', sc', tr) = (o, s, sc, []) -> typed_receipts k_text o = [] ->
+              (forall k, typed_receipts k o = typed_receipts k_text o) ->
+    st_le s s' /\ recvd tr ++ sc' = sc /\ (cs s = Disconnected -> no_recv tr = true) /\
+    (J s sc -> nrad (isd (cs s)) tr = Some (isd (cs s')) /\ J s' sc' /\
+               Forall2 receipt_ok (receipts (Obs (IterStep i) s out tr s')) (frames (recvd tr)))).
+  { intros o Q T Tk. inversion Q; subst. cbn.
+    refine (conj (st_le_refl _) (conj eq_refl (conj (fun _ => eq_refl) _))).
+    intros HJ. refine (conj eq_refl (conj HJ _)). unfold receipts. cbn.
+    destruct (nth_error (its s) i); [rewrite Tk, T|]; destruct (cs s); constructor. }
+  destruct (nth_error (its s) i) as [it|] eqn:N.
+  2:{ eapply Quiet; [symmetry; exact H | reflexivity | reflexivity]. }
+  destruct (idone it) eqn:D.
+  { eapply Quiet; [symmetry; exact H | reflexivity | reflexivity]. }
+  destruct (ws_receive_typed (key_of (ikind it)) s sc) as [[[r sa] sca] ta] eqn:E.
+  pose proof (typed_receipts_ok _ _ _ _ _ _ _ (key_of_payload _) E) as R.
+  pose proof (typed_facts _ _ _ _ _ _ _ E) as (F1 & F2 & F3 & F4 & F5 & F6 & F7 & F8).
+  assert (Go : forall o s0, (out, s', sc', tr) = (o, s0, sca, ta) -> cs s0 = cs sa -> aps s0 = aps sa ->
+              its_le (its sa) (its s0) ->
+              typed_receipts (key_of (ikind it)) o = typed_receipts (key_of (ikind it)) (res_outcome r) ->
+    st_le s s' /\ recvd tr ++ sc' = sc /\ (cs s = Disconnected -> no_recv tr = true) /\
+    (J s sc -> nrad (isd (cs s)) tr = Some (isd (cs s')) /\ J s' sc' /\
+               Forall2 receipt_ok (receipts (Obs (IterStep i) s out tr s')) (frames (recvd tr)))).
+  { intros o s0 Q C A L T. injection Q as -> -> -> ->.
+    refine (conj _ (conj F4 (conj F6 _))).
+    - refine (conj _ (conj _ _)); [rewrite C; exact F3 | rewrite A, F2; apply wle_refl | rewrite <- F8; exact L].
+    - intros HJ. destruct (F7 HJ) as [N1 J1]. rewrite C. refine (conj N1 (conj _ _)).
+      + unfold J in *. rewrite C. exact J1.
+      + unfold receipts. cbn [o_before o_call o_out raw_receipts]. rewrite N, T. exact (R HJ). }
+  destruct r as [e|v].
+  - destruct e; (eapply Go; [symmetry; exact H | reflexivity | reflexivity | apply its_le_finish | reflexivity]).
+  - eapply Go; [symmetry; exact H | reflexivity | reflexivity | apply its_le_refl | reflexivity].
 Qed.
 
 Lemma step_facts : forall c, step_facts_stmt c.
@@ -447,13 +578,16 @@ Proof.
   - apply step_facts_sb.
   - apply step_facts_close.
   - apply step_facts_send.
+  - apply step_facts_open.
+  - apply step_facts_istep.
+  - apply step_facts_iclose.
 Qed.
 
 Definition step_fwd_stmt (c : call) : Prop := forall s sc out s' sc' tr,
   step c s sc = (out, s', sc', tr) -> fwd_ok c s out s' tr.
 
 Ltac fwd_brute :=
-  intros [c a] sc out s' sc' tr H;
+  intros [c a l0] sc out s' sc' tr H;
   unfold fwd_ok, legal_step, has_type in *; unfold_ops;
   brk; leaf H; brk;
   repeat match goal with |- context [str_eqb ?a ?b] => destruct (str_eqb a b) eqn:? end;
@@ -492,6 +626,39 @@ Proof.
   left. inversion H; subst; repeat split; auto; rewrite Hi; discriminate.
 Qed.
 
+Lemma step_fwd_gen : forall c, intended c = None ->
+  (forall code reason, c <> Close code reason) ->
+  (forall s sc out s' sc' tr, step c s sc = (out, s', sc', tr) -> fwd_events tr = [] /\ aps s' = aps s) ->
+  step_fwd_stmt c.
+Proof.
+  intros c Hi Hc Hq s sc out s' sc' tr H. destruct (Hq _ _ _ _ _ _ H) as [F A].
+  left. refine (conj F (conj A _)). rewrite Hi. discriminate.
+Qed.
+
+Lemma step_fwd_open : forall kd, step_fwd_stmt (IterOpen kd).
+Proof.
+  intros kd. apply step_fwd_gen; [reflexivity | discriminate |].
+  intros s sc out s' sc' tr H. cbn [step] in H. unfold ws_iter_open in H. inversion H; subst. split; reflexivity.
+Qed.
+
+Lemma step_fwd_iclose : forall i, step_fwd_stmt (IterClose i).
+Proof.
+  intros i. apply step_fwd_gen; [reflexivity | discriminate |].
+  intros s sc out s' sc' tr H. cbn [step] in H. unfold ws_iter_close in H.
+  destruct (nth_error (its s) i); inversion H; subst; split; reflexivity.
+Qed.
+
+Lemma step_fwd_istep : forall i, step_fwd_stmt (IterStep i).
+Proof.
+  intros i. apply step_fwd_gen; [reflexivity | discriminate |].
+  intros s sc out s' sc' tr H. cbn [step] in H. unfold ws_iter_step in H.
+  destruct (nth_error (its s) i) as [it|]; [|inversion H; subst; split; reflexivity].
+  destruct (idone it); [inversion H; subst; split; reflexivity|].
+  destruct (ws_receive_typed (key_of (ikind it)) s sc) as [[[r sa] sca] ta] eqn:E.
+  apply typed_facts in E. destruct E as (F1 & F2 & _).
+  destruct r as [e|v]; [destruct e|]; inversion H; subst; split; assumption.
+Qed.
+
 Lemma step_fwd : forall c, step_fwd_stmt c.
 Proof.
   destruct c.
@@ -505,6 +672,9 @@ Proof.
   - apply step_fwd_sb.
   - apply step_fwd_close.
   - apply step_fwd_send.
+  - apply step_fwd_open.
+  - apply step_fwd_istep.
+  - apply step_fwd_iclose.
 Qed.
 
 (* ====================================================================== *)
@@ -688,9 +858,10 @@ Lemma wle_disconnected : forall w, wle Disconnected w -> w = Disconnected.
 Proof. intros [] H; unfold wle in H; cbn in H; try lia; reflexivity. Qed.
 
 Lemma close_closes_proof : forall code reason s sc,
-  exists tr s', step (Close code reason) s sc = (ONone, s', sc, tr) /\ aps s' = Disconnected /\ cs s' = cs s.
+  exists tr s', step (Close code reason) s sc = (ONone, s', sc, tr) /\ aps s' = Disconnected /\ cs s' = cs s /\
+               its s' = its s.
 Proof.
-  intros code reason [c a] sc. unfold_ops. destruct a; cbn; lits; cbn; eauto.
+  intros code reason [c a l0] sc. unfold_ops. destruct a; cbn; lits; cbn; eauto 7.
 Qed.
 
 Lemma close_idempotent_proof : forall calls script code reason calls' code' reason',
@@ -705,8 +876,8 @@ Proof.
   destruct (run calls init script) as [[os0 s0] sc0].
   cbn [run]. destruct (close_closes_proof code reason s0 sc0) as (tr & s1 & E & A & _).
   rewrite E. destruct (run calls' s1 sc0) as [[os2 s2] sc2] eqn:E2.
-  pose proof (run_facts _ _ _ _ _ _ E2) as ([_ M] & _). rewrite A in M.
-  apply wle_disconnected in M. destruct s2 as [c2 a2]. cbn in M. subst a2. reflexivity.
+  pose proof (run_facts _ _ _ _ _ _ E2) as ((_ & M & _) & _). rewrite A in M.
+  apply wle_disconnected in M. destruct s2 as [c2 a2 l2]. cbn in M. subst a2. reflexivity.
 Qed.
 
 Lemma states_monotone_proof : forall calls script,
@@ -747,6 +918,217 @@ Proof.
 Qed.
 
 (* ====================================================================== *)
+(* Generators kept open across calls; the application side of the guard     *)
+(* ====================================================================== *)
+
+(* a typed receive made while the application is not CONNECTED fails its
+   assertion before anything else happens *)
+Lemma typed_unconnected : forall k s sc,
+  aps s <> Connected -> ws_receive_typed k s sc = (inl AssertionError, s, sc, []).
+Proof.
+  intros k [c a l0] sc H. unfold_ops. destruct a; cbn in *; try reflexivity. congruence.
+Qed.
+
+Lemma iter_unconnected : forall k n s sc,
+  aps s <> Connected ->
+  ws_iter k n s sc = (([], match n with O => TLimit | S _ => TExn AssertionError end), s, sc, []).
+Proof.
+  intros k [|n] s sc H; cbn [ws_iter]; [reflexivity|]. rewrite typed_unconnected by exact H. reflexivity.
+Qed.
+
+Lemma step_refused : forall c s sc out s' sc' tr,
+  aps s <> Connected -> typed_receive c = true ->
+  step c s sc = (out, s', sc', tr) ->
+  tr = [] /\ sc' = sc /\ cs s' = cs s /\ aps s' = aps s /\ refused out = true.
+Proof.
+  intros c s sc out s' sc' tr A T H. destruct c; try discriminate T; cbn [step] in H.
+  - rewrite typed_unconnected in H by exact A. inversion H; subst. repeat split; reflexivity.
+  - rewrite typed_unconnected in H by exact A. inversion H; subst. repeat split; reflexivity.
+  - rewrite iter_unconnected in H by exact A. inversion H; subst. destruct n; repeat split; reflexivity.
+  - rewrite iter_unconnected in H by exact A. inversion H; subst. destruct n; repeat split; reflexivity.
+  - unfold ws_iter_step in H. destruct (nth_error (its s) i) as [it|].
+    2:{ inversion H; subst. repeat split; reflexivity. }
+    destruct (idone it).
+    { inversion H; subst. repeat split; reflexivity. }
+    rewrite typed_unconnected in H by exact A. inversion H; subst. repeat split; reflexivity.
+Qed.
+
+(* once the application has closed, only receive() and accept() can still reach the server *)
+Lemma step_closed_quiet : forall c s sc out s' sc' tr,
+  aps s = Disconnected -> reads_raw c = false ->
+  step c s sc = (out, s', sc', tr) ->
+  tr = [] /\ sc' = sc /\ cs s' = cs s /\ aps s' = aps s.
+Proof.
+  intros c s sc out s' sc' tr A R H.
+  destruct (typed_receive c) eqn:T.
+  { assert (aps s <> Connected) as NC by (rewrite A; discriminate).
+    destruct (step_refused _ _ _ _ _ _ _ NC T H) as (Q1 & Q2 & Q3 & Q4 & _). auto. }
+  destruct s as [c0 a0 l0]. cbn in A. subst a0.
+  destruct c; try discriminate T; try discriminate R; cbn [step] in H.
+  - unfold_ops. cbn in H. inversion H; subst. repeat split; reflexivity.
+  - unfold_ops. cbn in H. inversion H; subst. repeat split; reflexivity.
+  - unfold_ops. cbn in H. inversion H; subst. repeat split; reflexivity.
+  - unfold_ops. cbn in H. inversion H; subst. repeat split; reflexivity.
+  - unfold ws_iter_open in H. inversion H; subst. repeat split; reflexivity.
+  - unfold ws_iter_close in H. destruct (nth_error _ _); inversion H; subst; repeat split; reflexivity.
+Qed.
+
+Lemma no_receive_after_disconnect_proof2 : forall calls script,
+  (starts_with_connect script -> no_recv_after_disconnect (full_trace calls script) = true) /\
+  (forall o, In o (observations calls script) -> cs (o_before o) = Disconnected -> no_recv (o_trace o) = true) /\
+  (forall o, In o (observations calls script) ->
+     aps (o_before o) = Disconnected -> reads_raw (o_call o) = false ->
+     o_trace o = [] /\ cs (o_after o) = cs (o_before o) /\ aps (o_after o) = Disconnected).
+Proof.
+  intros calls script. destruct (no_receive_after_disconnect_proof calls script) as [P1 P2].
+  refine (conj P1 (conj P2 _)).
+  intros o Ho A R. destruct (obs_step _ _ _ Ho) as (sc0 & sc1 & E).
+  destruct (step_closed_quiet _ _ _ _ _ _ _ A R E) as (Q1 & _ & Q3 & Q4). rewrite <- A. auto.
+Qed.
+
+Lemma typed_receive_needs_connected_application_proof : forall calls script o,
+  In o (observations calls script) ->
+  aps (o_before o) <> Connected -> typed_receive (o_call o) = true ->
+  o_trace o = [] /\ cs (o_after o) = cs (o_before o) /\ aps (o_after o) = aps (o_before o) /\
+  refused (o_out o) = true.
+Proof.
+  intros calls script o Ho A T. destruct (obs_step _ _ _ Ho) as (sc0 & sc1 & E).
+  destruct (step_refused _ _ _ _ _ _ _ A T E) as (Q1 & _ & Q3 & Q4 & Q5). auto.
+Qed.
+
+(* a finished generator is inert *)
+Lemma finished_iterator_inert_proof : forall i s sc it,
+  nth_error (its s) i = Some it -> idone it = true ->
+  step (IterStep i) s sc = (OStop, s, sc, []).
+Proof. intros i s sc it N D. cbn [step]. unfold ws_iter_step. rewrite N, D. reflexivity. Qed.
+
+Lemma nth_error_finish_same : forall i l it,
+  nth_error l i = Some it -> nth_error (finish i l) i = Some (Iter (ikind it) true).
+Proof.
+  induction i as [|i IH]; intros [|x l] it H; cbn in *; try discriminate.
+  - inversion H; subst. reflexivity.
+  - apply IH. exact H.
+Qed.
+
+(* ... and stepping or closing makes it finished whenever the iteration ends *)
+Lemma iterator_finishes_proof : forall i s sc out s' sc' tr it,
+  nth_error (its s) i = Some it ->
+  (step (IterClose i) s sc = (out, s', sc', tr) \/
+   (step (IterStep i) s sc = (out, s', sc', tr) /\ (out = OStop \/ exists e, out = OExn e))) ->
+  nth_error (its s') i = Some (Iter (ikind it) true).
+Proof.
+  intros i s sc out s' sc' tr it N [H | [H O]]; cbn [step] in H.
+  - unfold ws_iter_close in H. rewrite N in H. inversion H; subst. cbn. apply nth_error_finish_same. exact N.
+  - unfold ws_iter_step in H. rewrite N in H. destruct (idone it) eqn:D.
+    + inversion H; subst. rewrite N. destruct it as [kd d]. cbn in *. subst d. reflexivity.
+    + destruct (ws_receive_typed (key_of (ikind it)) s sc) as [[[r sa] sca] ta] eqn:E.
+      apply typed_facts in E. destruct E as (_ & _ & _ & _ & _ & _ & _ & F8).
+      destruct r as [e|v].
+      * destruct e; inversion H; subst; cbn; rewrite F8; apply nth_error_finish_same; exact N.
+      * inversion H; subst. destruct O as [O | [e O]]; discriminate O.
+Qed.
+
+(* a step of a live generator is a typed receive whose WebSocketDisconnect ends the iteration *)
+Definition receive_call (kd : kind) : call := match kd with KText => ReceiveText | KBytes => ReceiveBytes end.
+Definition iter_call (kd : kind) (n : nat) : call := match kd with KText => IterText n | KBytes => IterBytes n end.
+Definition step_outcome_of (o : outcome) : outcome :=
+  match o with OExn (WebSocketDisconnect _ _) => OStop | _ => o end.
+
+Lemma iter_step_is_typed_receive_proof : forall i s sc it,
+  nth_error (its s) i = Some it -> idone it = false ->
+  match step (receive_call (ikind it)) s sc, step (IterStep i) s sc with
+  | (o1, s1, sc1, t1), (o2, s2, sc2, t2) =>
+      o2 = step_outcome_of o1 /\ sc2 = sc1 /\ t2 = t1 /\ cs s2 = cs s1 /\ aps s2 = aps s1 /\
+      its s2 = match o1 with OVal _ => its s | _ => finish i (its s) end
+  end.
+Proof.
+  intros i s sc it N D.
+  assert (Q : step (receive_call (ikind it)) s sc = lift_val (ws_receive_typed (key_of (ikind it)) s sc))
+    by (destruct (ikind it); reflexivity).
+  rewrite Q. cbn [step]. unfold ws_iter_step. rewrite N, D. unfold lift_val.
+  destruct (ws_receive_typed (key_of (ikind it)) s sc) as [[[r sa] sca] ta] eqn:E.
+  apply typed_facts in E. destruct E as (_ & _ & _ & _ & _ & _ & _ & F8).
+  destruct r as [e|v]; [destruct e|]; cbn; rewrite ?F8; repeat split; reflexivity.
+Qed.
+
+(* the generators play no part in what a typed receive does *)
+Lemma typed_its : forall k c a l l' sc,
+  ws_receive_typed k (St c a l') sc =
+  match ws_receive_typed k (St c a l) sc with
+  | (r, s1, sc1, t1) => (r, St (cs s1) (aps s1) l', sc1, t1)
+  end.
+Proof.
+  intros k c a l l' sc. unfold_ops.
+  destruct a, c; cbn; try reflexivity; destruct sc as [|[[t|] f] sc]; cbn; try reflexivity;
+  repeat (match goal with
+          | |- context [str_eqb ?x ?y] => destruct (str_eqb x y) eqn:?
+          | |- context [lookup ?x ?y] => destruct (lookup x y) eqn:?
+          end; cbn; try reflexivity).
+Qed.
+
+Lemma iter_its : forall k n c a l l' sc,
+  ws_iter k n (St c a l') sc =
+  match ws_iter k n (St c a l) sc with
+  | (r, s1, sc1, t1) => (r, St (cs s1) (aps s1) l', sc1, t1)
+  end.
+Proof.
+  intros k n. induction n as [|n IH]; intros c a l l' sc; cbn [ws_iter]; [reflexivity|].
+  rewrite (typed_its k c a l l').
+  destruct (ws_receive_typed k (St c a l) sc) as [[[r [c1 a1 l1]] sc1] t1] eqn:E.
+  apply typed_facts in E. destruct E as (_ & _ & _ & _ & _ & _ & _ & F8). cbn in F8. subst l1.
+  destruct r as [e|v]; [destruct e; reflexivity|]. cbn [cs aps].
+  rewrite (IH c1 a1 l l').
+  destruct (ws_iter k n (St c1 a1 l) sc1) as [[[[items t] s2] sc2] t2]. reflexivity.
+Qed.
+
+(* stepping a live generator until it stops (at most n times) and closing it does what the atomic call does *)
+Lemma steps_until_atomic : forall kd n i s sc,
+  nth_error (its s) i = Some (Iter kd false) ->
+  match ws_iter (key_of kd) n s sc, steps_until i n s sc with
+  | (r1, s1, sc1, t1), (r2, s2, sc2, t2) => r2 = r1 /\ sc2 = sc1 /\ t2 = t1 /\ s2 = finish_st i s1
+  end.
+Proof.
+  intros kd n. induction n as [|n IH]; intros i s sc N; cbn [ws_iter steps_until].
+  - repeat split; reflexivity.
+  - cbn [step]. unfold ws_iter_step. rewrite N. cbn [idone ikind].
+    destruct (ws_receive_typed (key_of kd) s sc) as [[[r sa] sca] ta] eqn:E.
+    apply typed_facts in E. destruct E as (_ & _ & _ & _ & _ & _ & _ & F8).
+    destruct r as [e|v].
+    + destruct e; repeat split; reflexivity.
+    + rewrite <- F8 in N. specialize (IH i sa sca N).
+      destruct (ws_iter (key_of kd) n sa sca) as [[[[items t] s1] sc1] t1].
+      destruct (steps_until i n sa sca) as [[[[items' t'] s2] sc2] t2].
+      destruct IH as (Q1 & Q2 & Q3 & Q4). inversion Q1; subst. repeat split; reflexivity.
+Qed.
+
+Lemma nth_error_app_new : forall (l : list iter) x, nth_error (l ++ [x]) (length l) = Some x.
+Proof. induction l as [|y l IH]; intros x; cbn; auto. Qed.
+
+Lemma finish_app_new : forall (l : list iter) x, finish (length l) (l ++ [x]) = l ++ [Iter (ikind x) true].
+Proof. induction l as [|y l IH]; intros x; cbn; [reflexivity|]. rewrite IH. reflexivity. Qed.
+
+Lemma iter_steps_equal_atomic_iter_proof : forall kd n s sc,
+  exists s0, step (IterOpen kd) s sc = (ONone, s0, sc, []) /\
+  match step (iter_call kd n) s sc, steps_until (length (its s)) n s0 sc with
+  | (out, s1, sc1, t1), (r, s2, sc2, t2) =>
+      out = OIter (fst r) (snd r) /\ sc2 = sc1 /\ t2 = t1 /\ cs s2 = cs s1 /\ aps s2 = aps s1 /\
+      its s2 = its s1 ++ [Iter kd true]
+  end.
+Proof.
+  intros kd n [c a l] sc. eexists. split; [reflexivity|]. cbn [its cs aps].
+  assert (Q : step (iter_call kd n) (St c a l) sc = lift_iter (ws_iter (key_of kd) n (St c a l) sc))
+    by (destruct kd; reflexivity).
+  rewrite Q. unfold lift_iter.
+  pose proof (steps_until_atomic kd n (length l) (St c a (l ++ [Iter kd false])) sc (nth_error_app_new _ _)) as A.
+  rewrite (iter_its (key_of kd) n c a l (l ++ [Iter kd false])) in A.
+  destruct (ws_iter (key_of kd) n (St c a l) sc) as [[[[items t] s1] sc1] t1] eqn:E.
+  apply iter_facts in E. destruct E as (_ & _ & _ & _ & _ & _ & F7). cbn in F7.
+  destruct (steps_until (length l) n (St c a (l ++ [Iter kd false])) sc) as [[[r s2] sc2] t2].
+  destruct A as (A1 & A2 & A3 & A4). rewrite A1, A2, A3, A4. cbn. rewrite finish_app_new, F7.
+  repeat split; reflexivity.
+Qed.
+
+(* ====================================================================== *)
 (* A non-trivial run                                                        *)
 (* ====================================================================== *)
 
@@ -780,7 +1162,7 @@ Example run_example :
       (close_msg (VInt 1000) VNone, Disconnected) ] /\
   recvd (full_trace ex_calls ex_script) = [ex_connect; ex_text (lit "a"); ex_bytes (lit "b"); ex_disconnect] /\
   final_rest ex_calls ex_script = [ex_text (lit "c")] /\
-  final_state ex_calls ex_script = St Disconnected Disconnected /\
+  final_state ex_calls ex_script = St Disconnected Disconnected [] /\
   flat_map receipts (observations ex_calls ex_script) = [RField k_text (VStr (lit "a")); RMissing k_text] /\
   legal (forwarded (full_trace ex_calls ex_script)) = true /\
   no_recv_after_disconnect (full_trace ex_calls ex_script) = true.
@@ -792,4 +1174,39 @@ Example recognisers_reject :
   legal [accept_msg VNone; close_msg VNone VNone; close_msg VNone VNone] = false /\
   legal [close_msg VNone VNone; accept_msg VNone] = false /\
   no_recv_after_disconnect [Recv (Some ex_connect); Recv (Some ex_disconnect); Recv None] = false.
+Proof. vm_compute. repeat split; reflexivity. Qed.
+
+(* a running iteration interleaved with other calls: the loop
+     async for m in ws.iter_text(): await ws.send_text(m); await ws.close()
+   keeps iterating after its close(): the next step raises without asking the
+   server, the one after that ends the loop; a second generator, created but
+   never stepped, is closed; the raw receive() may still drain the server. *)
+Definition ex2_script : list msg :=
+  [ex_connect; ex_text (lit "a"); ex_text (lit "b"); ex_text (lit "c"); ex_disconnect].
+
+Definition ex2_calls : list call :=
+  [ Accept VNone; IterOpen KText; IterOpen KBytes;
+    IterStep 0;                        (* "a" *)
+    SendText (VStr (lit "a"));
+    IterStep 1;                        (* the bytes generator meets a text frame: KeyError, finished *)
+    IterStep 1;                        (* StopAsyncIteration *)
+    Close (VInt 1000) VNone;
+    IterStep 0;                        (* AssertionError, the server is not asked *)
+    IterStep 0;                        (* StopAsyncIteration *)
+    IterStep 7;                        (* no such generator *)
+    IterClose 0;
+    Receive ].                         (* "c" — receive() is not guarded by application_state *)
+
+Example interleaved_example :
+  map o_out (observations ex2_calls ex2_script) =
+    [ ONone; ONone; ONone; OVal (VStr (lit "a")); ONone; OExn (KeyError k_bytes); OStop; ONone;
+      OExn AssertionError; OStop; ONoIter; ONone; OMsg (ex_text (lit "c")) ] /\
+  map (fun o => length (o_trace o)) (observations ex2_calls ex2_script) = [2; 0; 0; 1; 1; 1; 0; 1; 0; 0; 0; 0; 1]%nat /\
+  final_state ex2_calls ex2_script = St Connected Disconnected [Iter KText true; Iter KBytes true] /\
+  final_rest ex2_calls ex2_script = [ex_disconnect] /\
+  flat_map receipts (observations ex2_calls ex2_script) =
+    [RField k_text (VStr (lit "a")); RMissing k_bytes; RFull (ex_text (lit "c"))] /\
+  steps_until 0 9 (St Connected Connected [Iter KText false]) (tl ex2_script) =
+    (([VStr (lit "a"); VStr (lit "b"); VStr (lit "c")], TDone), St Disconnected Connected [Iter KText true], [],
+     map (fun m => Recv (Some m)) (tl ex2_script)).
 Proof. vm_compute. repeat split; reflexivity. Qed.
